@@ -19,6 +19,10 @@ pub const PROBES: &[&str] = &[
     "insert_duplicate",
     "insert_via_year_for_mut",
     "query_on_another_calendar",
+    "clone_from_into_other_window",
+    "read_through_std_chain",
+    "read_through_std_bufreader",
+    "read_through_std_take",
     "insert_negative_year",
     "first_after_same_month",
     "first_after_later_month",
@@ -512,6 +516,21 @@ fn step(cx: &mut Ctx, op: &Op) -> R {
             }
             Ok(())
         }
+        Op::CloneFrom(i) => {
+            cx.fp.tag(16);
+            if cx.w.snaps.is_empty() {
+                return Ok(());
+            }
+            let k = *i as usize % cx.w.snaps.len();
+            let mut target = cx.w.snaps[k].0.clone();
+            target.clone_from(&cx.w.cal);
+            cx.probes.hit("clone_from_into_other_window");
+            if target != cx.w.cal {
+                return fail("clone_not_equal", format!("snapshot #{k}.clone_from(&current) is != current"));
+            }
+            check_agree(&target, &cx.w.model, "clone_from target")?;
+            Ok(())
+        }
         Op::RoundTrip { w, r, tail } => {
             cx.fp.tag(11);
             let items = [Item::Cur];
@@ -617,7 +636,82 @@ fn concat(cx: &mut Ctx, items: &[Item], w: &Plan, r: &Plan, tail: u8) -> R {
 /// Read calendars one by one from `data` through a reader with plan `r`.
 /// The i-th must equal item i if its bytes are completely available and no
 /// terminal fault fired while reading it; otherwise the call must fail.
+/// Reading through real std adaptors (Chain / BufReader / Take) stacked on simulated readers that inject
+/// transparent faults only: every calendar must come back equal and what is left afterwards must be exactly the
+/// sentinel tail.
+fn read_back_std(cx: &mut Ctx, items: &[Item], data: &[u8], r: &Plan, tail_len: usize) -> R {
+    use std::io::Read;
+    let soft = Plan {
+        acts: r.acts.iter().copied().filter(|(_, a)| matches!(a, crate::scenario::Act::Short(_) | crate::scenario::Act::Eintr)).collect(),
+        max_chunk: r.max_chunk,
+        ..Plan::default()
+    };
+    let cut = (r.cut as usize).min(data.len());
+    let mut first = SimReader::new(&soft, &data[..if r.flavour == 1 { cut } else { data.len() }]);
+    let mut second = SimReader::new(&soft, if r.flavour == 1 { &data[cut..] } else { &[] });
+    let mut rest = Vec::new();
+    let mut results = Vec::new();
+    {
+        let mut run = |rd: &mut dyn Read| {
+            struct Dyn<'a>(&'a mut dyn Read);
+            impl Read for Dyn<'_> {
+                fn read(&mut self, b: &mut [u8]) -> std::io::Result<usize> {
+                    self.0.read(b)
+                }
+            }
+            for _ in items {
+                results.push(CompactCalendar::deserialize(&mut *rd));
+            }
+            loop {
+                let mut b = [0u8; 64];
+                match rd.read(&mut b) {
+                    Ok(0) => break,
+                    Ok(n) => rest.extend_from_slice(&b[..n]),
+                    Err(e) if e.kind() == std::io::ErrorKind::Interrupted => {}
+                    Err(_) => break,
+                }
+            }
+            let _ = Dyn(rd);
+        };
+        match r.flavour {
+            1 => {
+                cx.probes.hit("read_through_std_chain");
+                run(&mut (&mut first).chain(&mut second))
+            }
+            2 => {
+                cx.probes.hit("read_through_std_bufreader");
+                run(&mut std::io::BufReader::with_capacity(cut + 1, &mut first))
+            }
+            _ => {
+                cx.probes.hit("read_through_std_take");
+                run(&mut (&mut first).take(data.len() as u64))
+            }
+        }
+    }
+    absorb_stream(cx, &first.st);
+    absorb_stream(cx, &second.st);
+    cx.sim.add("bytes_read", first.st.bytes + second.st.bytes);
+    for (i, (res, it)) in results.into_iter().zip(items).enumerate() {
+        let (cal, _) = cx.w.item(*it);
+        match res {
+            Ok(got) if got == *cal => {}
+            Ok(got) => return fail("roundtrip_not_equal", format!("calendar #{i} read through a std adaptor (flavour {}) came back different ({} dates, wrote {})", r.flavour, got.count(), cal.count())),
+            Err(e) => return fail("err_on_transparent_fault", format!("calendar #{i} read through a std adaptor (flavour {}, cut {cut}): Err({e}) although every byte was available", r.flavour)),
+        }
+    }
+    if rest.len() != tail_len {
+        return fail("consumed_wrong_length", format!("after reading all calendars through a std adaptor (flavour {}), {} bytes are left in the stream, the sentinel tail has {tail_len}", r.flavour, rest.len()));
+    }
+    Ok(())
+}
+
 fn read_back(cx: &mut Ctx, items: &[Item], lens: &[usize], data: &[u8], r: &Plan, tail: Option<&[u8]>) -> R {
+    if r.flavour != 0 {
+        // only for complete streams (the writer did not crash)
+        if let Some(t) = tail {
+            return read_back_std(cx, items, data, r, t.len());
+        }
+    }
     let mut sr = SimReader::new(r, data);
     let mut expected_pos = 0usize;
     let mut all_ok = true;
@@ -627,6 +721,12 @@ fn read_back(cx: &mut Ctx, items: &[Item], lens: &[usize], data: &[u8], r: &Plan
         let res = CompactCalendar::deserialize(&mut sr);
         let complete = avail >= lens[i];
         let expect_ok = complete && !sr.st.terminal;
+        if complete && sr.st.called_after_end {
+            return fail(
+                "extra_read_after_complete",
+                format!("calendar #{i}: all {} bytes had been delivered and the stream was drained, yet the reader was called again (a drained non-blocking source answers that with WouldBlock, a pipe would block); result: {}", lens[i], if res.is_ok() { "Ok" } else { "Err" }),
+            );
+        }
         let (cal, model) = cx.w.item(*it);
         match (res, expect_ok) {
             (Ok(got), true) => {
@@ -684,7 +784,7 @@ fn crash_sweep(cx: &mut Ctx, items: &[Item], offsets: Option<&[u32]>, chunk: Opt
         lens.push(b.len());
         reference.extend_from_slice(&b);
     }
-    let plan = Plan { acts: vec![], max_chunk: chunk, capacity: None };
+    let plan = Plan { acts: vec![], max_chunk: chunk, ..Plan::default() };
     let all: Vec<u32>;
     let offs: &[u32] = match offsets {
         Some(o) => o,
